@@ -25,7 +25,7 @@ fn main() {
                 h = o;
             }
             let mut rng = n.cx.hist_rng(h);
-            match rng.below(15) {
+            match rng.below(17) {
                 0 => n.map_history::<u32, u32, 0>(h, rng, steps),
                 1 => n.map_history::<u32, u32, 1>(h, rng, steps),
                 2 => n.map_history::<u32, u32, 2>(h, rng, steps),
@@ -41,6 +41,9 @@ fn main() {
                 11 => n.map_history::<u32, BigV, 32>(h, rng, steps),
                 12 => n.set_history::<BigK, 64, 4>(h, rng, steps),
                 13 => n.map_history::<BigK, BigV, 16>(h, rng, steps),
+                // operands with more than 64 elements (slot numbers beyond one machine word of mask bits)
+                14 => n.set_history::<u32, 80, 72>(h, rng, steps),
+                15 => n.set_history::<u32, 3, 130>(h, rng, steps),
                 _ => n.set_history::<u32, 0, 2>(h, rng, steps),
             }
             n.cx.rep.histories += 1;
